@@ -394,6 +394,7 @@ func runC20(c *Ctx) {
 	c.Clause("C20.3 CanSend = bytesInFlight < window; SendAny/SendPacingLimited only beyond CanSend")
 	c.Clause("C20.4 pacer: overflow guards dominate the multiplication; Budget capped by maxBurstSize; 5/4 bandwidth factor")
 	c.Clause("C20.5 isCwndLimited applies the half-window shortcut in slow start only; SetMaxDatagramSize evaluates the at-minimum test before storing the new size")
+	c.Clause("C20.8 the pacer turns exactly the elapsed time into budget (no floor on the elapsed time)")
 	c.Clause("C20.7 the ECN tracker (whose verdict triggers a congestion event) is consulted only for ACKs that advance the largest acknowledged, before that value is updated (the repository's stated precondition)")
 	c.Clause("C20.6 probe credit, which bypasses the congestion check in SendMode, is written only by the timeout / ACK / send / drop paths and is reset by every processed ACK")
 	c.NotCovered("the numeric inequalities over event histories")
@@ -406,6 +407,7 @@ func runC20(c *Ctx) {
 	c.rule("C20.5", func() { c20AppLimitedAndMTU(c) })
 	c.rule("C20.6", func() { c20ProbeCredit(c) })
 	c.rule("C20.7", func() { c20ECNOnlyForAdvancingAcks(c) })
+	c.rule("C20.8", func() { c20PacerElapsedTime(c) })
 }
 
 func c20Growth(c *Ctx) {
